@@ -3,6 +3,7 @@
 -/
 import Xc.Lemmas.Api
 import Xc.Lemmas.Fix
+import Xc.Thm.C18
 namespace Xc.C01
 open Xc
 
@@ -108,5 +109,220 @@ theorem C01_bcrypt_hashpart (D : Digests) (p s H : Bytes) (h : cryptBf D p s = .
 /-- non-vacuity: concrete settings meet the hypotheses (kernel-evaluated with the executable digests abstracted away) -/
 example (D : Digests) : ∃ H, cryptMd5 D [112, 119] [36, 49, 36, 115, 97, 108, 116] = .ok H := ⟨_, rfl⟩
 example (D : Digests) : ∃ H, cryptDes D [112, 119] [97, 98] = .ok H := ⟨_, rfl⟩
+
+
+/-! ### the round trip at the level of the API (`do_crypt`) -/
+open List in
+theorem prefix_take_append {pfx s : Bytes} (x : Bytes) (n : Nat) (h : pfx <+: s) (hn : pfx.length ≤ n) : pfx <+: s.take n ++ x := by
+  obtain ⟨t, rfl⟩ := h
+  rw [List.take_append, List.take_of_length_le hn, List.append_assoc]
+  exact List.prefix_append _ _
+
+/-- re-dispatch: if row `r` is the first match for `s`, and `H` (a) begins with `r`'s non-empty tag, or (b) `r` is an untagged
+    (DES) row and `H` begins with two DES salt characters, then `r` is the first match for `H` too -/
+theorem redispatch (tbl : List HashEntry) (hT : C18.TableOk tbl = true) (s H : Bytes) (r : HashEntry)
+    (hs : getHashFn tbl s = some r)
+    (hH : (r.pfx ≠ [] ∧ r.pfx <+: H) ∨ (r.pfx = [] ∧ s ≠ [] ∧ isDesSaltChar (cat H 0) = true ∧ isDesSaltChar (cat H 1) = true ∧ H ≠ [])) :
+    getHashFn tbl H = some r := by
+  simp only [C18.TableOk, Bool.and_eq_true, List.all_eq_true] at hT
+  obtain ⟨⟨hpf, hdes⟩, _⟩ := hT
+  have hpf' := hpf
+  simp only [C18.prefixFree, Bool.and_eq_true, List.all_eq_true] at hpf'
+  obtain ⟨⟨hlen, _⟩, _⟩ := hpf'
+  unfold getHashFn at hs ⊢
+  rw [List.find?_eq_some_iff_append] at hs ⊢
+  obtain ⟨hm, as, bs, htbl, hbefore⟩ := hs
+  have rmem : r ∈ tbl := by rw [htbl]; simp
+  have rlen : r.plen = r.pfx.length := by simpa using hlen r rmem
+  refine ⟨?_, as, bs, htbl, ?_⟩
+  · -- r matches H
+    rcases hH with ⟨hne, hpre⟩ | ⟨he, _, d0, d1, hHne⟩
+    · unfold HashEntry.matches
+      have : 0 < r.pfx.length := List.length_pos_iff.mpr hne
+      rw [if_pos (by omega), rlen, if_pos (Nat.le_refl _), List.take_length]
+      simpa [hasPrefix] using hpre
+    · unfold HashEntry.matches
+      rw [rlen, he]; simp [d0, d1]
+  · intro x hx
+    have xmem : x ∈ tbl := by rw [htbl]; simp [hx]
+    have xlen : x.plen = x.pfx.length := by simpa using hlen x xmem
+    have xns := hbefore x hx
+    simp only [Bool.not_eq_true'] at xns ⊢
+    apply Decidable.byContradiction
+    intro hxm'
+    have hxm : x.matches H = true := by simpa using hxm'
+    rcases hH with ⟨hne, hpre⟩ | ⟨he, hsne, d0, d1, hHne⟩
+    · -- tagged row
+      by_cases hxe : x.pfx = []
+      · -- an untagged row cannot match something that begins with a tag
+        unfold HashEntry.matches at hxm
+        rw [xlen, hxe] at hxm
+        simp only [List.length_nil, Nat.lt_irrefl, if_false, Bool.or_eq_true, Bool.and_eq_true] at hxm
+        obtain ⟨t, rfl⟩ := hpre
+        have hr := hdes r rmem
+        cases hrp : r.pfx with
+        | nil => exact hne hrp
+        | cons c cs =>
+          rw [hrp] at hr hxm
+          simp [cat] at hr hxm
+          rw [hr] at hxm; simp at hxm
+      · have := C18.C18_unique_match tbl hpf H x r xmem rmem hxe hne hxm (by
+          unfold HashEntry.matches
+          have : 0 < r.pfx.length := List.length_pos_iff.mpr hne
+          rw [if_pos (by omega), rlen, if_pos (Nat.le_refl _), List.take_length]
+          simpa [hasPrefix] using hpre)
+        subst this
+        rw [hm] at xns; cases xns
+    · -- DES row
+      by_cases hxe : x.pfx = []
+      · -- an earlier untagged row would have matched s as well
+        have : x.matches s = true := by
+          unfold HashEntry.matches at hm ⊢
+          rw [rlen, he] at hm; rw [xlen, hxe]
+          simpa using hm
+        rw [this] at xns; cases xns
+      · -- a tagged row cannot match something that begins with a DES salt character
+        have xp := C18.matches_prefix x H xlen (by rw [xlen]; exact List.length_pos_iff.mpr hxe) hxm
+        obtain ⟨t, rfl⟩ := xp
+        have hx2 := hdes x xmem
+        cases hxp : x.pfx with
+        | nil => exact hxe hxp
+        | cons c cs =>
+          rw [hxp] at hx2 d0
+          simp [cat] at hx2 d0
+          rw [d0] at hx2; cases hx2
+
+theorem isDes_a64 : ∀ k : Fin 64, isDesSaltChar (a64 k.val) = true := by decide
+theorem isDes_a64' (n : Nat) : isDesSaltChar (a64 n) = true := by
+  have := isDes_a64 ⟨n % 64, Nat.mod_lt _ (by decide)⟩; simpa [a64] using this
+
+theorem tag_facts : C18.tagOf .md5crypt = Gen.md5_salt_prefix ∧ C18.tagOf .sha256crypt = Gen.sha256_salt_prefix ∧ C18.tagOf .sha512crypt = Gen.sha512_salt_prefix ∧
+    C18.tagOf .sha1crypt <+: sha1Magic ∧ C18.tagOf .nt = ntMagic ∧ (C18.tagOf .bsdicrypt).length ≤ 9 ∧ (C18.tagOf .bcrypt).length ≤ 28 ∧ (C18.tagOf .bcrypt_a).length ≤ 28 ∧
+    (C18.tagOf .bcrypt_x).length ≤ 28 ∧ (C18.tagOf .bcrypt_y).length ≤ 28 ∧ C18.tagOf .bigcrypt = [] ∧ C18.tagOf .descrypt = [] ∧
+    (∀ m, C18.tagOf m = [] → m = .bigcrypt ∨ m = .descrypt) := by
+  refine ⟨by decide, by decide, by decide, by decide, by decide, by decide, by decide, by decide, by decide, by decide, by decide, by decide, ?_⟩
+  intro m; cases m <;> decide
+
+/-- the methods for which the front-end round trip is proved (C01_*_fix) -/
+def proved (m : Method) : Bool :=
+  match m with
+  | .sunmd5 | .scrypt | .yescrypt | .gost_yescrypt => false
+  | _ => true
+
+/-- **C01, both clauses, at the level of the API** (`do_crypt`: length check, character filter, dispatch, method):
+    for every configuration whose table is `C18.TableOk` (the tree's is: `C18.tableOk_tree`), arbitrary digests, every phrase
+    and every setting dispatched to one of the twelve proved methods: the result is accepted again, dispatched to the
+    same table row, and reproduces itself. -/
+theorem C01_roundtrip (cfg : Config) (hT : C18.TableOk cfg.table = true) (D : Digests) (hD : D.WF) (p s H : Bytes)
+    (h : cryptPure cfg D p s = .ok H)
+    (hm : ∀ r, getHashFn cfg.table s = some r → proved r.crypt = true) :
+    cryptPure cfg D p H = .ok H := by
+  have hfilter := (C01_result_passes_filter cfg D hD p s H h).1
+  unfold cryptPure at h ⊢
+  split at h; · cases h
+  rename_i hlen
+  split at h; · cases h
+  split at h; · cases h
+  rename_i r hr
+  have hpr := hm r hr
+  simp only [hlen, if_false, hfilter, Bool.false_eq_true]
+  have hT' := hT
+  simp only [C18.TableOk, Bool.and_eq_true, List.all_eq_true] at hT'
+  obtain ⟨⟨hpf, _⟩, htag⟩ := hT'
+  have hpf' := hpf
+  simp only [C18.prefixFree, Bool.and_eq_true, List.all_eq_true] at hpf'
+  obtain ⟨⟨hplen, _⟩, _⟩ := hpf'
+  have rmem : r ∈ cfg.table := List.mem_of_find?_eq_some hr
+  have rtag : r.pfx = C18.tagOf r.crypt := by simpa using htag r rmem
+  have rlen : r.plen = r.pfx.length := by simpa using hplen r rmem
+  have rmatch : r.matches s = true := by
+    unfold getHashFn at hr; have := List.find?_some hr; simpa using this
+  obtain ⟨t1, t2, t3, t4, t5, t6, t7, t8, t9, t10, t11, t12, t13⟩ := tag_facts
+  -- the row for H is r again, and the method reproduces H
+  suffices hh : getHashFn cfg.table H = some r ∧ cryptMethod cfg.descryptOn D r.crypt p H = .ok H by
+    rw [hh.1]; exact hh.2
+  have spre : r.pfx ≠ [] → r.pfx <+: s := fun hne =>
+    C18.matches_prefix r s rlen (by rw [rlen]; exact List.length_pos_iff.mpr hne) rmatch
+  -- DES-family rows: the result begins with two salt characters
+  have desCase : ∀ salt : Nat, ∀ rest : Bytes, r.pfx = [] → H = [a64 salt, a64 (salt / 64)] ++ rest → s ≠ [] → getHashFn cfg.table H = some r := by
+    intro salt rest he hH hsne
+    apply redispatch cfg.table hT s H r hr
+    right
+    refine ⟨he, hsne, ?_, ?_, ?_⟩ <;> rw [hH] <;> simp [cat, isDes_a64']
+  have sne : r.pfx = [] → s ≠ [] := by
+    intro he hs; subst hs
+    cases hc : r.crypt <;> rw [hc] at h hpr rtag <;> simp only [cryptMethod, proved] at h hpr <;> try (cases hpr; done)
+    all_goals first
+      | (rw [he] at rtag; have := t13 _ rtag.symm; simp at this; done)
+      | (simp [cryptBig, cryptDes, parseDesSalt, cat, asciiToBin] at h; done)
+  cases hc : r.crypt <;> rw [hc] at h hpr rtag <;> simp only [cryptMethod, proved] at h hpr ⊢ <;> try (cases hpr; done)
+  case bcrypt =>
+    have hne : r.pfx ≠ [] := by rw [rtag]; decide
+    obtain ⟨c22, dig, hl, e, f⟩ := cryptBf_refeed h
+    refine ⟨redispatch cfg.table hT s H r hr (Or.inl ⟨hne, ?_⟩), C01_bcrypt_fix D p s H h⟩
+    rw [e, List.append_assoc]; exact prefix_take_append _ 28 (spre hne) (by rw [rtag]; exact t7)
+  case bcrypt_y =>
+    have hne : r.pfx ≠ [] := by rw [rtag]; decide
+    obtain ⟨c22, dig, hl, e, f⟩ := cryptBf_refeed h
+    refine ⟨redispatch cfg.table hT s H r hr (Or.inl ⟨hne, ?_⟩), C01_bcrypt_fix D p s H h⟩
+    rw [e, List.append_assoc]; exact prefix_take_append _ 28 (spre hne) (by rw [rtag]; exact t10)
+  case bcrypt_a =>
+    have hne : r.pfx ≠ [] := by rw [rtag]; decide
+    obtain ⟨c22, dig, hl, e, f⟩ := cryptBf_refeed h
+    refine ⟨redispatch cfg.table hT s H r hr (Or.inl ⟨hne, ?_⟩), C01_bcrypt_fix D p s H h⟩
+    rw [e, List.append_assoc]; exact prefix_take_append _ 28 (spre hne) (by rw [rtag]; exact t8)
+  case bcrypt_x =>
+    have hne : r.pfx ≠ [] := by rw [rtag]; decide
+    obtain ⟨c22, dig, hl, e, f⟩ := cryptBf_refeed h
+    refine ⟨redispatch cfg.table hT s H r hr (Or.inl ⟨hne, ?_⟩), C01_bcrypt_fix D p s H h⟩
+    rw [e, List.append_assoc]; exact prefix_take_append _ 28 (spre hne) (by rw [rtag]; exact t9)
+  case sha512crypt =>
+    have hne : r.pfx ≠ [] := by rw [rtag]; decide
+    obtain ⟨P, e, f⟩ := cryptSha512_refeed h
+    refine ⟨redispatch cfg.table hT s H r hr (Or.inl ⟨hne, ?_⟩), C01_sha512crypt_fix D p s H h⟩
+    rw [e, rtag, t3]; unfold emitSha; simp only [List.append_assoc]; exact List.prefix_append _ _
+  case sha256crypt =>
+    have hne : r.pfx ≠ [] := by rw [rtag]; decide
+    obtain ⟨P, e, f⟩ := cryptSha256_refeed h
+    refine ⟨redispatch cfg.table hT s H r hr (Or.inl ⟨hne, ?_⟩), C01_sha256crypt_fix D p s H h⟩
+    rw [e, rtag, t2]; unfold emitSha; simp only [List.append_assoc]; exact List.prefix_append _ _
+  case sha1crypt =>
+    have hne : r.pfx ≠ [] := by rw [rtag]; decide
+    obtain ⟨P, e, f⟩ := cryptSha1_refeed h
+    refine ⟨redispatch cfg.table hT s H r hr (Or.inl ⟨hne, ?_⟩), C01_sha1crypt_fix D p s H h⟩
+    rw [e, rtag]; simp only [List.append_assoc]; exact t4.trans (List.prefix_append _ _)
+  case md5crypt =>
+    have hne : r.pfx ≠ [] := by rw [rtag]; decide
+    obtain ⟨salt, e, f⟩ := cryptMd5_refeed h
+    refine ⟨redispatch cfg.table hT s H r hr (Or.inl ⟨hne, ?_⟩), C01_md5crypt_fix D p s H h⟩
+    rw [e, rtag, t1]; simp only [List.append_assoc]; exact List.prefix_append _ _
+  case nt =>
+    have hne : r.pfx ≠ [] := by rw [rtag]; decide
+    obtain ⟨e, f⟩ := cryptNt_refeed h
+    refine ⟨redispatch cfg.table hT s H r hr (Or.inl ⟨hne, ?_⟩), C01_nt_fix D p s H h⟩
+    rw [e, rtag, t5]; simp only [List.append_assoc]; exact List.prefix_append _ _
+  case bsdicrypt =>
+    have hne : r.pfx ≠ [] := by rw [rtag]; decide
+    obtain ⟨dig, e, f⟩ := cryptBsdi_refeed h
+    refine ⟨redispatch cfg.table hT s H r hr (Or.inl ⟨hne, ?_⟩), C01_bsdicrypt_fix D p s H h⟩
+    rw [e]; exact prefix_take_append _ 9 (spre hne) (by rw [rtag]; exact t6)
+  case bigcrypt =>
+    have he : r.pfx = [] := by rw [rtag]; exact t11
+    refine ⟨?_, C01_bigcrypt_fix cfg.descryptOn D hD p s H h⟩
+    have hshape : ∃ salt rest, H = [a64 salt, a64 (salt / 64)] ++ rest := by
+      unfold cryptBig at h
+      split at h
+      · split at h
+        · obtain ⟨salt, e, _⟩ := cryptDes_refeed h; exact ⟨salt, _, e⟩
+        · cases h
+      · split at h
+        · cases h
+        · cases h; exact ⟨_, _, rfl⟩
+    obtain ⟨salt, rest, e⟩ := hshape
+    exact desCase salt rest he e (sne he)
+  case descrypt =>
+    have he : r.pfx = [] := by rw [rtag]; exact t12
+    obtain ⟨salt, e, _⟩ := cryptDes_refeed h
+    exact ⟨desCase salt _ he e (sne he), C01_descrypt_fix D p s H h⟩
 
 end Xc.C01
